@@ -529,8 +529,8 @@ fn atom(n: u128) -> Vec<Coin> {
 #[derive(Clone, Debug)]
 pub enum Op {
     Store,
-    /// (v, label?, admin?, funds, by_stranger, salt?)
-    Inst { v: u32, label: Option<&'static str>, admin: bool, funds: u128, stranger: bool, salt: Option<&'static [u8]> },
+    /// (v, label?, admin?, funds, by_stranger, salt?, second setter round: 0 none, 1 admin -> None, 2 admin -> stranger, 3 label -> "M", 4 funds -> none, 5 salt -> None)
+    Inst { v: u32, label: Option<&'static str>, admin: bool, funds: u128, stranger: bool, salt: Option<&'static [u8]>, again: u8 },
     /// exec method index, argument, funds, by stranger, instance selector (0 = first, 1 = last)
     Exec { m: u8, arg: u32, funds: u128, stranger: bool, inst: u8 },
     Query { m: u8, arg: u32, inst: u8 },
@@ -541,21 +541,26 @@ pub enum Op {
 fn alphabet(tier: &str) -> Vec<Op> {
     let mut v = vec![
         Op::Store,
-        Op::Inst { v: 0, label: None, admin: false, funds: 0, stranger: false, salt: None },
-        Op::Inst { v: 5, label: Some("L"), admin: true, funds: 0, stranger: false, salt: None },
-        Op::Inst { v: 5, label: None, admin: false, funds: 2, stranger: false, salt: None },
-        Op::Inst { v: 0, label: None, admin: false, funds: 2, stranger: true, salt: None },
-        Op::Inst { v: 99, label: Some("bad"), admin: true, funds: 0, stranger: false, salt: None },
-        Op::Inst { v: 7, label: None, admin: false, funds: 0, stranger: false, salt: Some(b"s1") },
-        Op::Inst { v: 7, label: Some("S"), admin: true, funds: 1, stranger: false, salt: Some(b"s2") },
+        Op::Inst { v: 0, label: None, admin: false, funds: 0, stranger: false, salt: None, again: 0 },
+        Op::Inst { v: 5, label: Some("L"), admin: true, funds: 0, stranger: false, salt: None, again: 0 },
+        Op::Inst { v: 5, label: None, admin: false, funds: 2, stranger: false, salt: None, again: 0 },
+        Op::Inst { v: 0, label: None, admin: false, funds: 2, stranger: true, salt: None, again: 0 },
+        Op::Inst { v: 99, label: Some("bad"), admin: true, funds: 0, stranger: false, salt: None, again: 0 },
+        Op::Inst { v: 7, label: None, admin: false, funds: 0, stranger: false, salt: Some(b"s1"), again: 0 },
+        Op::Inst { v: 7, label: Some("S"), admin: true, funds: 1, stranger: false, salt: Some(b"s2"), again: 0 },
         Op::Exec { m: 0, arg: 1, funds: 0, stranger: false, inst: 0 },
         Op::Exec { m: 0, arg: 13, funds: 0, stranger: false, inst: 0 },
         Op::Exec { m: 0, arg: 2, funds: 3, stranger: false, inst: 1 },
         Op::Exec { m: 0, arg: 2, funds: 3, stranger: true, inst: 0 },
         Op::Exec { m: 1, arg: 4, funds: 0, stranger: true, inst: 1 },
         Op::Exec { m: 0, arg: 6, funds: 999, stranger: false, inst: 0 },
-        Op::Inst { v: 3, label: None, admin: true, funds: 0, stranger: false, salt: Some(b"") },
-        Op::Inst { v: 3, label: None, admin: false, funds: 999, stranger: false, salt: None },
+        Op::Inst { v: 3, label: None, admin: true, funds: 0, stranger: false, salt: Some(b""), again: 0 },
+        Op::Inst { v: 3, label: None, admin: false, funds: 999, stranger: false, salt: None, again: 0 },
+        Op::Inst { v: 4, label: Some("L"), admin: true, funds: 0, stranger: false, salt: None, again: 1 },
+        Op::Inst { v: 4, label: None, admin: true, funds: 0, stranger: false, salt: None, again: 2 },
+        Op::Inst { v: 4, label: Some("L"), admin: false, funds: 0, stranger: false, salt: None, again: 3 },
+        Op::Inst { v: 4, label: None, admin: false, funds: 2, stranger: false, salt: None, again: 4 },
+        Op::Inst { v: 4, label: None, admin: true, funds: 0, stranger: false, salt: Some(b"s3"), again: 5 },
         Op::Query { m: 0, arg: 0, inst: 0 },
         Op::Query { m: 1, arg: 13, inst: 1 },
         Op::Sudo { m: 0, arg: 3, inst: 0 },
@@ -566,7 +571,7 @@ fn alphabet(tier: &str) -> Vec<Op> {
         Op::Migrate { arg: 13, stranger: false, missing_code: false, inst: 1 },
     ];
     if tier == "thorough" {
-        v.push(Op::Inst { v: 1, label: Some(""), admin: false, funds: 11, stranger: false, salt: Some(b"") });
+        v.push(Op::Inst { v: 1, label: Some(""), admin: false, funds: 11, stranger: false, salt: Some(b""), again: 0 });
         v.push(Op::Exec { m: 1, arg: 0, funds: 1, stranger: false, inst: 0 });
         v.push(Op::Query { m: 1, arg: 2, inst: 0 });
         v.push(Op::Sudo { m: 1, arg: 0, inst: 0 });
@@ -614,7 +619,7 @@ macro_rules! program {
                             rcodes.push(rid);
                             (o, r)
                         }
-                        Op::Inst { v, label, admin, funds, stranger, salt } => {
+                        Op::Inst { v, label, admin, funds, stranger, salt, again } => {
                             if pcodes.is_empty() {
                                 last = StepReport { enabled: false, mismatch: None, state: String::new() };
                                 if is_last { return last; } else { continue; }
@@ -629,6 +634,15 @@ macro_rules! program {
                                 if admin { b = b.with_admin(actors.owner.as_str()); }
                                 if funds > 0 { b = b.with_funds(&fnds); }
                                 if let Some(s) = salt { b = b.with_salt(s); }
+                                // a later setter call replaces what an earlier one set
+                                b = match again {
+                                    1 => b.with_admin(None),
+                                    2 => b.with_admin(actors.stranger.as_str()),
+                                    3 => b.with_label("M"),
+                                    4 => b.with_funds(&[]),
+                                    5 => b.with_salt(None),
+                                    _ => b,
+                                };
                                 match b.call(sender) {
                                     Ok(p) => { let a = p.contract_addr.to_string(); created = Some(p); Out::Ok { events: String::new(), data: None, addr: Some(a), value: None } }
                                     Err(e) => Out::Typed(format!("{:?}", e)),
@@ -637,8 +651,11 @@ macro_rules! program {
                             if let Some(p) = created { pinsts.push(p); }
                             let rsender = if stranger { &ractors.stranger } else { &ractors.owner };
                             // the proxy's documented default label is "Contract"
-                            let (ro, ra) = raw_instantiate::<$err, $cm, $cq>(&mut rapp, rsender, *rcodes.last().unwrap(), &$inst_json(v), &fnds, label.unwrap_or("Contract"),
-                                if admin { Some(ractors.owner.to_string()) } else { None }, salt);
+                            let radmin = match again { 1 => None, 2 => Some(ractors.stranger.to_string()), _ => if admin { Some(ractors.owner.to_string()) } else { None } };
+                            let rlabel = if again == 3 { "M" } else { label.unwrap_or("Contract") };
+                            let rfunds: Vec<Coin> = if again == 4 { vec![] } else { fnds.clone() };
+                            let rsalt = if again == 5 { None } else { salt };
+                            let (ro, ra) = raw_instantiate::<$err, $cm, $cq>(&mut rapp, rsender, *rcodes.last().unwrap(), &$inst_json(v), &rfunds, rlabel, radmin, rsalt);
                             if let Some(a) = ra { rinsts.push(a); }
                             (po, ro)
                         }
